@@ -16,10 +16,13 @@ from .core import (EXIT_INCONCLUSIVE, EXIT_OK, EXIT_VIOLATION, CACHE, VERIF, Har
 
 def select(specs: list[HarnessSpec], tier: str, only: list[str] | None) -> list[HarnessSpec]:
     if only:
-        return [s for s in specs if s.name in only]
-    if tier == "quick":
-        return [s for s in specs if s.tier == "quick"]
-    return [s for s in specs if s.tier in ("quick", "thorough")]
+        sel = [s for s in specs if s.name in only]
+    elif tier == "quick":
+        sel = [s for s in specs if s.tier == "quick"]
+    else:
+        sel = [s for s in specs if s.tier in ("quick", "thorough")]
+    # heaviest first (stable): a long harness that starts last decides the wall time of the tier
+    return sorted(sel, key=lambda s: -s.weight)
 
 
 def main(argv: list[str]) -> int:
